@@ -76,6 +76,9 @@ Proof.
     rewrite skipn_all. symmetry. apply skipn_all2. lia.
 Qed.
 
+Lemma skipn_length_plus {A} (d x : list A) k : skipn (length d + k) (d ++ x) = skipn k x.
+Proof. induction d as [|a d IH]; cbn; [reflexivity|exact IH]. Qed.
+
 (* ---------------------------------------------------------------- *)
 (* well-formed reader stacks                                        *)
 (* ---------------------------------------------------------------- *)
@@ -208,4 +211,305 @@ Proof.
   - split; [assumption|]. eapply sizes_step_stall; eassumption.
   - destruct S as [-> | ->]; [lia|]. destruct (b_sizes (bs r)); cbn; lia.
   - intros H1 H2. destruct (Z H1 H2) as (q & Q1 & Q2). rewrite Q1, Q2. cbn. split; [lia|reflexivity].
+Qed.
+
+(* ---------------------------------------------------------------- *)
+(* io.ReadFull                                                      *)
+(* ---------------------------------------------------------------- *)
+Definition same_shape (r r' : reader) : Prop :=
+  b_term (bs r') = b_term (bs r) /\ length (ls r') = length (ls r) /\
+  (length (b_sizes (bs r')) <= length (b_sizes (bs r)))%nat.
+
+Lemma same_shape_refl r : same_shape r r.
+Proof. unfold same_shape. auto. Qed.
+
+Lemma same_shape_trans a b c : same_shape a b -> same_shape b c -> same_shape a c.
+Proof. unfold same_shape. intros (A1 & A2 & A3) (B1 & B2 & B3). repeat split; try congruence. lia. Qed.
+
+Lemma rd_post_shape r k d e r' : rd_post r k d e r' -> same_shape r r'.
+Proof. intros [D L W E T S Z Dp]. unfold same_shape. auto. Qed.
+
+(* the error class of a short read: io.EOF only if nothing at all was there and the transport ended cleanly *)
+Definition short_class {A} (x : dres A) (avail : bytes) (term : ioerr) : Prop :=
+  (x = ErrEOF \/ x = Err) /\ (x = ErrEOF -> avail = []) /\
+  (term = EOF -> x = match avail with [] => ErrEOF | _ :: _ => Err end).
+
+Lemma readfull_loop_spec fuel : forall r need acc x r',
+  wf_reader r -> (N.to_nat need + length (b_sizes (bs r)) < fuel)%nat ->
+  readfull_loop fuel r need acc = (x, r') ->
+  wf_reader r' /\ same_shape r r' /\
+  (need <= blen (rden r) -> x = Ok (acc ++ takeN need (rden r)) /\ rden r' = dropN need (rden r)) /\
+  (blen (rden r) < need -> short_class x (acc ++ rden r) (b_term (bs r)) /\ rden r' = []).
+Proof.
+  induction fuel as [|f IH]; intros r need acc x r' Hw Hf H; [lia|].
+  cbn [readfull_loop] in H. destruct (N.eqb_spec need 0) as [E0|N0].
+  - injection H as <- <-. subst need. split; [assumption|]. split; [apply same_shape_refl|]. split.
+    + intros _. rewrite takeN_0, app_nil_r. split; [reflexivity|]. rewrite dropN_skipn. reflexivity.
+    + lia.
+  - destruct (rd_read r need) as [[d e] r1] eqn:Er.
+    assert (Hk: 0 < need) by lia.
+    pose proof (rd_read_spec _ _ _ _ _ Hk Hw Er) as P. pose proof (rd_post_shape _ _ _ _ _ P) as Sh.
+    destruct P as [D L W E T S Z Dp].
+    destruct e as [y|].
+    + (* terminal error came with this read *)
+      destruct (E y eq_refl) as [Hnil Hy]. rewrite Hnil, app_nil_r in D.
+      destruct (N.eqb_spec (need - blen d) 0) as [Ez|Nz].
+      * injection H as <- <-. split; [assumption|]. split; [assumption|]. split.
+        -- intros _. rewrite D. rewrite takeN_all by lia. split; [reflexivity|].
+           rewrite dropN_all by lia. assumption.
+        -- rewrite D. lia.
+      * assert (Hshort: blen (rden r) < need) by (rewrite D; lia).
+        split; [|split; [|split; [lia|]]].
+        -- destruct (acc ++ d), y; injection H as <- <-; assumption.
+        -- destruct (acc ++ d), y; injection H as <- <-; assumption.
+        -- intros _. rewrite D. split.
+           ++ unfold short_class. destruct (acc ++ d) as [|z q] eqn:Ea.
+              ** destruct y; injection H as <- <-.
+                 --- repeat split; auto.
+                 --- repeat split; auto; try discriminate. intros Ht. specialize (Hy Ht). discriminate.
+              ** destruct y; injection H as <- <-; repeat split; auto; discriminate.
+           ++ destruct (acc ++ d), y; injection H as <- <-; assumption.
+    + (* go on *)
+      assert (Hf': (N.to_nat (need - blen d) + length (b_sizes (bs r1)) < f)%nat).
+      { destruct d as [|z q].
+        - destruct (Z eq_refl eq_refl) as [Z1 _]. rewrite blen_nil. lia.
+        - rewrite blen_cons in *. lia. }
+      destruct (IH _ _ _ _ _ W Hf' H) as (W' & Sh' & Hok & Hsh).
+      split; [assumption|]. split; [eapply same_shape_trans; eassumption|].
+      rewrite D, blen_app. split.
+      * intros Hle. destruct Hok as [-> Hd]; [lia|]. split.
+        -- rewrite takeN_app_le by lia. rewrite <- app_assoc. reflexivity.
+        -- rewrite Hd. rewrite !dropN_skipn. replace (N.to_nat need) with (length d + N.to_nat (need - blen d))%nat by (unfold blen in *; lia).
+           symmetry. apply skipn_length_plus.
+      * intros Hlt. destruct Hsh as [Hc Hn]; [lia|]. split; [|assumption].
+        rewrite <- T. rewrite <- app_assoc in Hc. rewrite app_assoc. rewrite <- app_assoc. exact Hc.
+Qed.
+
+Lemma readfull_spec n r x r' : wf_reader r -> readfull n r = (x, r') ->
+  wf_reader r' /\ same_shape r r' /\
+  (n <= blen (rden r) -> x = Ok (takeN n (rden r)) /\ rden r' = dropN n (rden r)) /\
+  (blen (rden r) < n -> short_class x (rden r) (b_term (bs r)) /\ rden r' = []).
+Proof.
+  intros Hw H. unfold readfull in H.
+  apply readfull_loop_spec in H; [|assumption|lia]. exact H.
+Qed.
+
+(* ---------------------------------------------------------------- *)
+(* bufio.Reader.ReadByte                                            *)
+(* ---------------------------------------------------------------- *)
+Record fill_post (l : list layer) (b : base) (d : bytes) (e : option ioerr) (l' : list layer) (b' : base) : Prop := {
+  fp_den : den l b = d ++ den l' b';
+  fp_wf : wf_layers l' b';
+  fp_sf : stall_free (b_sizes b');
+  fp_err : forall x, e = Some x -> den l' b' = [] /\ (b_term b = EOF -> x = EOF);
+  fp_some : e = None -> d <> [];
+  fp_term : b_term b' = b_term b;
+  fp_depth : length l' = length l;
+  fp_sizes : (length (b_sizes b') <= length (b_sizes b))%nat }.
+
+Lemma fill_loop_spec i : forall l b size d e l' b',
+  0 < size -> wf_layers l b -> stall_free (b_sizes b) -> (zrun (b_sizes b) < i)%nat ->
+  fill_loop i l b size = (d, e, l', b') -> fill_post l b d e l' b'.
+Proof.
+  induction i as [|j IH]; intros l b size d e l' b' Hs Hw Hsf Hz H; [lia|].
+  cbn [fill_loop] in H. destruct (rread l b size) as [[[d0 e0] l0] b0] eqn:Er.
+  destruct (rread_spec _ _ _ _ _ _ _ Hs Hw Er) as [D L W E T We S Z Len].
+  assert (Hsf0: stall_free (b_sizes b0)) by (eapply sizes_step_stall; eassumption).
+  assert (Hlen0: (length (b_sizes b0) <= length (b_sizes b))%nat).
+  { destruct S as [-> | ->]; [lia|]. destruct (b_sizes b); cbn; lia. }
+  destruct e0 as [y|].
+  - injection H as <- <- <- <-. apply Build_fill_post; try assumption; try discriminate.
+  - destruct d0 as [|z q].
+    + destruct (Z eq_refl eq_refl) as (rs & Z1 & Z2).
+      assert (Hz': (zrun (b_sizes b0) < j)%nat) by (rewrite Z1 in Hz; rewrite Z2; cbn in Hz; lia).
+      destruct (IH _ _ _ _ _ _ _ Hs W Hsf0 Hz' H) as [D' W' S' E' N' T' L' Z'].
+      apply Build_fill_post; try assumption; try congruence; try lia.
+      * rewrite D. cbn [app]. assumption.
+      * intros x0 Hx. destruct (E' x0 Hx) as [E1 E2]. split; [assumption|]. intros Ht. apply E2. congruence.
+    + injection H as <- <- <- <-. apply Build_fill_post; try assumption; try discriminate.
+Qed.
+
+Record rb_post (r : reader) (x : dres byte) (r' : reader) : Prop := {
+  rb_wf : wf_reader r';
+  rb_shape : same_shape r r';
+  rb_res : match rden r with
+           | y :: rest => x = Ok y /\ rden r' = rest
+           | [] => short_class x [] (b_term (bs r)) /\ rden r' = []
+           end }.
+
+Lemma short_class_eclass {A} e t : (t = EOF -> e = EOF) -> short_class (@eclass A e) [] t.
+Proof.
+  intros H. unfold short_class. destruct e; cbn.
+  - split; [auto|]. split; auto.
+  - split; [auto|]. split; [discriminate|]. intros Ht. specialize (H Ht). discriminate.
+Qed.
+
+Lemma readbyte_spec r x r' : wf_reader r -> ls r <> [] -> (forall n l, ls r <> LLim n :: l) ->
+  readbyte r = (x, r') -> rb_post r x r'.
+Proof.
+  intros [Hw Hsf] Hne Hnl H. unfold readbyte in H.
+  destruct (ls r) as [|[size buf err|n] l] eqn:El; [contradiction| |exfalso; eapply Hnl; reflexivity].
+  cbn [wf_layers] in Hw. destruct Hw as (Hsz & Herr & Hwl).
+  destruct buf as [|y buf].
+  - destruct err as [e0|].
+    + injection H as <- <-. destruct (Herr e0 eq_refl) as [Hd He].
+      apply Build_rb_post; unfold rden, wf_reader, same_shape; rewrite ?El; cbn [ls bs den wf_layers length app].
+      * split; [|assumption]. split; [assumption|]. split; [intros ? ?; discriminate|assumption].
+      * auto.
+      * rewrite Hd. split; [|reflexivity]. apply short_class_eclass. assumption.
+    + destruct (fill_loop 100 l (bs r) size) as [[[d e] l0] b0] eqn:Ef.
+      destruct (fill_loop_spec _ _ _ _ _ _ _ _ Hsz Hwl Hsf (stall_free_zrun _ Hsf) Ef) as [D W S E N T L Z].
+      destruct d as [|z q].
+      * destruct e as [e0|]; [|exfalso; apply (N eq_refl); reflexivity].
+        injection H as <- <-. destruct (E e0 eq_refl) as [E1 E2].
+        apply Build_rb_post; unfold rden, wf_reader, same_shape; rewrite ?El; cbn [ls bs den wf_layers length app].
+        -- split; [|assumption]. split; [assumption|]. split; [intros ? ?; discriminate|assumption].
+        -- repeat split; [assumption|lia|assumption].
+        -- rewrite D, E1. cbn [app]. split; [|reflexivity]. apply short_class_eclass. assumption.
+      * injection H as <- <-.
+        apply Build_rb_post; unfold rden, wf_reader, same_shape; rewrite ?El; cbn [ls bs den wf_layers length app].
+        -- split; [|assumption]. split; [assumption|]. split; [|assumption].
+           intros e0 He0. destruct (E e0 He0) as [E1 E2]. split; [assumption|]. intros Ht. apply E2. congruence.
+        -- repeat split; [assumption|lia|assumption].
+        -- rewrite D. cbn [app]. split; reflexivity.
+  - injection H as <- <-.
+    apply Build_rb_post; unfold rden, wf_reader, same_shape; rewrite ?El; cbn [ls bs den wf_layers length app].
+    + split; [|assumption]. split; [assumption|]. split; assumption.
+    + auto.
+    + split; reflexivity.
+Qed.
+
+(* the source is itself an io.ByteScanner (bytes.Reader): no layers *)
+Lemma readbyte_base_spec r x r' : ls r = [] -> readbyte r = (x, r') ->
+  ls r' = [] /\ b_term (bs r') = b_term (bs r) /\ b_sizes (bs r') = b_sizes (bs r) /\
+  match rden r with
+  | y :: rest => x = Ok y /\ rden r' = rest
+  | [] => x = ErrEOF /\ rden r' = []
+  end.
+Proof.
+  intros El H. unfold readbyte in H. rewrite El in H. unfold rden. rewrite El. cbn [den].
+  destruct (b_data (bs r)) as [|y d] eqn:Ed.
+  - injection H as <- <-. rewrite El. cbn [den]. rewrite Ed. auto.
+  - injection H as <- <-. cbn. auto.
+Qed.
+
+(* ---------------------------------------------------------------- *)
+(* io.CopyN into a bytes.Buffer / into ioutil.Discard               *)
+(* ---------------------------------------------------------------- *)
+(* a short CopyN: io.EOF when the source ended cleanly (even after some bytes), the I/O error otherwise *)
+Definition copy_class {A} (x : dres A) (term : ioerr) : Prop :=
+  (x = ErrEOF \/ x = Err) /\ (term = EOF -> x = ErrEOF).
+
+Definition rmeasure (r : reader) : nat := (length (rden r) + length (b_sizes (bs r)))%nat.
+
+Lemma rd_post_measure r k d e r' : rd_post r k d e r' -> e = None -> (rmeasure r' < rmeasure r)%nat.
+Proof.
+  intros [D L W E T S Z Dp] He. unfold rmeasure. rewrite D, app_length. destruct d as [|z q].
+  - destruct (Z eq_refl He) as [Z1 _]. cbn [length]. lia.
+  - cbn [length]. lia.
+Qed.
+
+Lemma dropN_app_le n (d x : bytes) : blen d <= n -> dropN n (d ++ x) = dropN (n - blen d) x.
+Proof.
+  intros H. rewrite !dropN_skipn.
+  replace (N.to_nat n) with (length d + N.to_nat (n - blen d))%nat by (unfold blen in *; lia).
+  apply skipn_length_plus.
+Qed.
+
+Lemma copy_loop_spec fuel : forall r left cap acc al x r' al',
+  wf_reader r -> (rmeasure r + 1 < fuel)%nat ->
+  copy_loop fuel r left cap acc al = (x, r', al') ->
+  wf_reader r' /\ same_shape r r' /\
+  (left <= blen (rden r) -> x = Ok (acc ++ takeN left (rden r)) /\ rden r' = dropN left (rden r)) /\
+  (blen (rden r) < left -> copy_class x (b_term (bs r)) /\ rden r' = []).
+Proof.
+  induction fuel as [|f IH]; intros r left cap acc al x r' al' Hw Hf H; [lia|].
+  cbn [copy_loop] in H.
+  set (len := blen acc) in *.
+  destruct (if min_read <=? cap - len then (cap, al) else (N.max (len + min_read) (2 * cap), al + N.max (len + min_read) (2 * cap)))
+    as [cap' al1] eqn:Eg.
+  assert (Hcap: min_read <= cap' - len).
+  { unfold min_read in *. destruct (N.leb_spec 512 (cap - len)); injection Eg as <- <-; lia. }
+  destruct (N.eqb_spec left 0) as [E0|N0].
+  - injection H as <- <- <-. subst left. split; [assumption|]. split; [apply same_shape_refl|]. split.
+    + intros _. rewrite takeN_0, app_nil_r, dropN_skipn. split; reflexivity.
+    + lia.
+  - destruct (rd_read r (N.min (cap' - len) left)) as [[d e] r1] eqn:Er.
+    assert (Hk: 0 < N.min (cap' - len) left) by (unfold min_read in Hcap; lia).
+    pose proof (rd_read_spec _ _ _ _ _ Hk Hw Er) as P. pose proof (rd_post_shape _ _ _ _ _ P) as Sh.
+    pose proof (rd_post_measure _ _ _ _ _ P) as Hm.
+    destruct P as [D L W E T S Z Dp].
+    destruct e as [y|].
+    + destruct (E y eq_refl) as [Hnil Hy]. rewrite Hnil, app_nil_r in D.
+      assert (Hres: (x, r', al') = (if left - blen d =? 0 then Ok (acc ++ d) else eclass y, r1, al1)).
+      { destruct y; symmetry; exact H. }
+      injection Hres as -> -> ->. split; [assumption|]. split; [assumption|].
+      destruct (N.eqb_spec (left - blen d) 0) as [Ez|Nz].
+      * split.
+        -- intros _. rewrite D. rewrite takeN_all, dropN_all by lia. auto.
+        -- rewrite D. lia.
+      * split; [rewrite D; lia|]. intros _. split; [|assumption].
+        unfold copy_class. destruct y; cbn; split; auto. intros Ht. specialize (Hy Ht). discriminate.
+    + assert (Hf': (rmeasure r1 + 1 < f)%nat) by (specialize (Hm eq_refl); lia).
+      destruct (IH _ _ _ _ _ _ _ _ W Hf' H) as (W' & Sh' & Hok & Hsh).
+      split; [assumption|]. split; [eapply same_shape_trans; eassumption|].
+      rewrite D, blen_app. split.
+      * intros Hle. destruct Hok as [-> Hd]; [lia|]. split.
+        -- rewrite takeN_app_le by lia. rewrite <- app_assoc. reflexivity.
+        -- rewrite Hd. symmetry. apply dropN_app_le. lia.
+      * intros Hlt. destruct Hsh as [Hc Hn]; [lia|]. split; [|assumption]. rewrite <- T. exact Hc.
+Qed.
+
+Lemma copy_buf_spec l r x r' al : wf_reader r -> copy_buf l r = (x, r', al) ->
+  wf_reader r' /\ same_shape r r' /\
+  (l <= blen (rden r) -> x = Ok (takeN l (rden r)) /\ rden r' = dropN l (rden r)) /\
+  (blen (rden r) < l -> copy_class x (b_term (bs r)) /\ rden r' = []).
+Proof.
+  intros Hw H. unfold copy_buf in H. apply copy_loop_spec in H; [exact H|assumption|unfold rmeasure; lia].
+Qed.
+
+Lemma discard_loop_spec fuel : forall r left x r',
+  wf_reader r -> (rmeasure r + 1 < fuel)%nat ->
+  discard_loop fuel r left = (x, r') ->
+  wf_reader r' /\ same_shape r r' /\
+  (left <= blen (rden r) -> x = Ok tt /\ rden r' = dropN left (rden r)) /\
+  (blen (rden r) < left -> copy_class x (b_term (bs r)) /\ rden r' = []).
+Proof.
+  induction fuel as [|f IH]; intros r left x r' Hw Hf H; [lia|].
+  cbn [discard_loop] in H.
+  destruct (N.eqb_spec left 0) as [E0|N0].
+  - injection H as <- <-. subst left. split; [assumption|]. split; [apply same_shape_refl|]. split.
+    + intros _. rewrite dropN_skipn. split; reflexivity.
+    + lia.
+  - destruct (rd_read r (N.min discard_buf left)) as [[d e] r1] eqn:Er.
+    assert (Hk: 0 < N.min discard_buf left) by (unfold discard_buf; lia).
+    pose proof (rd_read_spec _ _ _ _ _ Hk Hw Er) as P. pose proof (rd_post_shape _ _ _ _ _ P) as Sh.
+    pose proof (rd_post_measure _ _ _ _ _ P) as Hm.
+    destruct P as [D L W E T S Z Dp].
+    destruct e as [y|].
+    + destruct (E y eq_refl) as [Hnil Hy]. rewrite Hnil, app_nil_r in D.
+      assert (Hres: (x, r') = (if left - blen d =? 0 then Ok tt else eclass y, r1)).
+      { destruct y; symmetry; exact H. }
+      injection Hres as -> ->. split; [assumption|]. split; [assumption|].
+      destruct (N.eqb_spec (left - blen d) 0) as [Ez|Nz].
+      * split.
+        -- intros _. rewrite D. rewrite dropN_all by lia. auto.
+        -- rewrite D. lia.
+      * split; [rewrite D; lia|]. intros _. split; [|assumption].
+        unfold copy_class. destruct y; cbn; split; auto. intros Ht. specialize (Hy Ht). discriminate.
+    + assert (Hf': (rmeasure r1 + 1 < f)%nat) by (specialize (Hm eq_refl); lia).
+      destruct (IH _ _ _ _ W Hf' H) as (W' & Sh' & Hok & Hsh).
+      split; [assumption|]. split; [eapply same_shape_trans; eassumption|].
+      rewrite D, blen_app. split.
+      * intros Hle. destruct Hok as [-> Hd]; [lia|]. split; [reflexivity|].
+        rewrite Hd. symmetry. apply dropN_app_le. lia.
+      * intros Hlt. destruct Hsh as [Hc Hn]; [lia|]. split; [|assumption]. rewrite <- T. exact Hc.
+Qed.
+
+Lemma discard_spec p r x r' : wf_reader r -> discard p r = (x, r') ->
+  wf_reader r' /\ same_shape r r' /\
+  (p <= blen (rden r) -> x = Ok tt /\ rden r' = dropN p (rden r)) /\
+  (blen (rden r) < p -> copy_class x (b_term (bs r)) /\ rden r' = []).
+Proof.
+  intros Hw H. unfold discard in H. apply discard_loop_spec in H; [exact H|assumption|unfold rmeasure; lia].
 Qed.
